@@ -57,12 +57,14 @@ pub struct Plan {
     pub stall_before_ms: u64,
     /// (body offset, ms): pause inside the body
     pub stall_at: Option<(usize, u64)>,
+    /// (piece bytes, pause ms): write the response in small pieces with a pause after each
+    pub trickle: Option<(usize, u64)>,
     pub content_type: String,
 }
 
 impl Plan {
     pub fn ok(body: Vec<u8>) -> Plan {
-        Plan { status: 200, framing: Framing::ContentLength, body, frags: vec![], cut_at: None, stall_before_ms: 0, stall_at: None, content_type: "application/ipp".into() }
+        Plan { status: 200, framing: Framing::ContentLength, body, frags: vec![], cut_at: None, stall_before_ms: 0, stall_at: None, trickle: None, content_type: "application/ipp".into() }
     }
 }
 
@@ -304,7 +306,13 @@ impl Server {
         let mut i = 0usize;
         let mut ok = true;
         while pos < wire.len() {
-            let mut k = if plan.frags.is_empty() { wire.len() - pos } else { plan.frags[i % plan.frags.len()].max(1).min(wire.len() - pos) };
+            let mut k = if let Some((piece, _)) = plan.trickle {
+                piece.max(1).min(wire.len() - pos)
+            } else if plan.frags.is_empty() {
+                wire.len() - pos
+            } else {
+                plan.frags[i % plan.frags.len()].max(1).min(wire.len() - pos)
+            };
             i += 1;
             if let Some(p) = pause_wire_off {
                 if pos < p && pos + k > p {
@@ -323,6 +331,9 @@ impl Server {
             }
             let _ = w.flush();
             pos += k;
+            if let Some((_, pause)) = plan.trickle {
+                std::thread::sleep(Duration::from_millis(pause));
+            }
             if !plan.frags.is_empty() && i % 4 == 0 {
                 std::thread::yield_now();
             }
